@@ -19,7 +19,7 @@ fi
 if [ "$what" = all ] || [ "$what" = driver ]; then
   mkdir -p ocaml/gen
   stamp=ocaml/gen/.stamp
-  newest=$(find coq/theories/Base coq/theories/Model coq/theories/Oracle coq/theories/Extract.v ocaml/driver.ml -name '*.v' -newer $stamp 2>/dev/null | head -1)
+  newest=$(find coq/theories/Base coq/theories/Model coq/theories/Spec coq/theories/Oracle coq/theories/Extract.v ocaml/driver.ml -name '*.v' -newer $stamp 2>/dev/null | head -1)
   if [ ! -x ocaml/driver ] || [ ! -f $stamp ] || [ -n "$newest" ] || [ ocaml/driver.ml -nt ocaml/driver ]; then
     ( cd ocaml/gen && rm -f *.ml *.mli *.cm* *.o && \
       timeout 600 coqc -Q ../../coq/theories Prtpy -o ./Extract.vo ../../coq/theories/Extract.v >/dev/null )
